@@ -177,39 +177,127 @@ def check_stack(run, db):
     return n
 
 
+class _Unknown(Exception):
+    pass
+
+
+EXPECT = {
+    # truth of the operator as a function of the order of the two components: (sign(lhs.index - rhs.index), sign(lhs.top - rhs.top))
+    'operator<': lambda oi, ot: oi < 0 or (oi == 0 and ot < 0),
+    'operator>': lambda oi, ot: oi > 0 or (oi == 0 and ot > 0),
+    'operator<=': lambda oi, ot: oi < 0 or (oi == 0 and ot <= 0),
+    'operator>=': lambda oi, ot: oi > 0 or (oi == 0 and ot >= 0),
+    'operator==': lambda oi, ot: oi == 0 and ot == 0,
+    'operator!=': lambda oi, ot: not (oi == 0 and ot == 0),
+}
+
+
 def check_marker(run, db):
+    """the six comparison operators of stack_marker only look at the markers through comparisons of (index, top): each operator
+    is evaluated - symbolically, from its path conditions and return terms - for all nine orderings of the two components and must
+    be the lexicographic order / its derived relation in every one.  Any spelling is accepted; a term that is not a comparison of
+    these components is 'analysis broken'."""
     ops = {}
     for f in db.fns.values():
         if f.short.startswith('operator') and len(f.params) == 2 and 'stack_marker' in f.params[0]['t'] and not f.pattern:
             ops[f.short] = f
+    roles = {0: 'lhs', 1: 'rhs'}
+    traces = {}
+    table = {}
+
+    def side(t):
+        c = sym.canon(t, roles)
+        m = re.match(r'^\$(lhs|rhs)\.(index|top)$', c)
+        return (m.group(1), m.group(2)) if m else None
+
+    def ev(t, case, stack):
+        t = sym.strip_casts(t)
+        if not isinstance(t, dict):
+            raise _Unknown(str(t))
+        k = t.get('k')
+        if k == 'lit' and (t.get('bool') or t.get('v') in (0, 1, True, False)):
+            return bool(t.get('v'))
+        if k == 'un' and t.get('op') == '!':
+            return not ev(t['e'], case, stack)
+        if k == 'cond':
+            return ev(t['t'], case, stack) if ev(t['c'], case, stack) else ev(t['f'], case, stack)
+        if k == 'bin' and t['op'] in ('&&', '&'):
+            return ev(t['l'], case, stack) and ev(t['r'], case, stack)
+        if k == 'bin' and t['op'] in ('||', '|'):
+            return ev(t['l'], case, stack) or ev(t['r'], case, stack)
+        if k == 'bin' and t['op'] in ('<', '>', '<=', '>=', '==', '!='):
+            a, b = side(t['l']), side(t['r'])
+            if a is None or b is None or a[1] != b[1]:
+                raise _Unknown('comparison of %s' % sym.canon(t, roles)[:60])
+            sgn = case[0] if a[1] == 'index' else case[1]
+            if a[0] == b[0]:
+                sgn = 0
+            elif a[0] == 'rhs':
+                sgn = -sgn
+            return {'<': sgn < 0, '>': sgn > 0, '<=': sgn <= 0, '>=': sgn >= 0, '==': sgn == 0, '!=': sgn != 0}[t['op']]
+        if k == 'call' and t.get('short') in ops and len(t.get('args', [])) == 2:
+            a, b = sym.canon(t['args'][0], roles), sym.canon(t['args'][1], roles)
+            if a not in ('$lhs', '$rhs') or b not in ('$lhs', '$rhs'):
+                raise _Unknown('call %s' % sym.canon(t, roles)[:60])
+            c2 = (0, 0) if a == b else (case if a == '$lhs' else (-case[0], -case[1]))
+            return value(t['short'], c2, stack)
+        raise _Unknown(sym.canon(t, roles)[:60])
+
+    def value(name, case, stack):
+        if (name, case) in table:
+            return table[(name, case)]
+        if (name, case) in stack:
+            raise _Unknown('%s is defined through itself' % name)
+        f = ops[name]
+        if name not in traces:
+            traces[name] = fwd.trace(f, roles=roles, db=db)
+        res = set()
+        for steps in traces[name]:
+            okp = True
+            ret = None
+            for st in steps:
+                if st['kind'] == 'br' and not st['assume']:
+                    try:
+                        holds = ev(st['cond'], case, stack | {(name, case)})
+                    except _Unknown:
+                        continue        # a test of something else (the same-stack assertion on `end`): both outcomes stay possible
+                    if holds != st['taken']:
+                        okp = False
+                        break
+                elif st['kind'] == 'end':
+                    if st['end'] != 'return' or st['ret'] is None:
+                        okp = False
+                    else:
+                        ret = st['ret']
+            if okp and ret is not None:
+                res.add(ev(ret, case, stack | {(name, case)}))
+        if len(res) != 1:
+            raise _Unknown('%s has %d feasible results for the ordering %s' % (name, len(res), case))
+        table[(name, case)] = res.pop()
+        return table[(name, case)]
+
     n = 0
-    want = {
-        'operator<': [(('($lhs.index != $rhs.index)',), '($lhs.index < $rhs.index)'), (('not(($lhs.index != $rhs.index))',), '($lhs.top < $rhs.top)')],
-        'operator==': [(('($lhs.index != $rhs.index)',), 'false'), (('not(($lhs.index != $rhs.index))',), '($lhs.top == $rhs.top)')],
-    }
-    alt = {
-        # other accepted spellings of the lexicographic order
-        'operator<': [[((), '(($lhs.index < $rhs.index) || (($lhs.index == $rhs.index) && ($lhs.top < $rhs.top)))')]],
-        'operator==': [[((), '(($lhs.index == $rhs.index) && ($lhs.top == $rhs.top))')]],
-    }
-    derived = {'operator!=': ('!(operator==($rhs,$lhs))', '!(operator==($lhs,$rhs))'), 'operator>': ('operator<($rhs,$lhs)',),
-               'operator<=': ('!(operator<($rhs,$lhs))',), 'operator>=': ('!(operator<($lhs,$rhs))',)}
-    for name in list(want) + list(derived):
+    for name in sorted(EXPECT):
         f = ops.get(name)
         if f is None:
             continue
         n += 1
-        got = sorted((s.cond_key(), s.ret) for s in fwd.summarize(f, roles={0: 'lhs', 1: 'rhs'}) if s.end == 'return')
         inst = '%s [%s]' % (f.display, db.config)
-        if name in want:
-            okk = got == sorted(want[name]) or any(got == sorted(a) for a in alt[name])
+        wrong = []
+        try:
+            for oi in (-1, 0, 1):
+                for ot in (-1, 0, 1):
+                    got = value(name, (oi, ot), frozenset())
+                    if got != EXPECT[name](oi, ot):
+                        wrong.append('index %s, top %s -> %s' % ('<=>'[oi + 1], '<=>'[ot + 1], str(got).lower()))
+        except _Unknown as e:
+            run.broke('%s: not a boolean combination of comparisons of (index, top): %s' % (f.display, e))
+            continue
+        if wrong:
+            run.violation('R-MARKER', inst, f.loc, '%s is not the lexicographic (index, top) order resp. the relation derived from it: wrong for the orderings [%s] (lhs vs rhs)'
+                          % (name, '; '.join(wrong[:4])), site={'function': 'detail::stack_marker::' + name, 'role': 'total order consistent with allocation order'})
         else:
-            okk = len(got) == 1 and got[0][0] == () and got[0][1] in derived[name]
-        if okk:
-            run.ok('R-MARKER', inst, f.loc, '; '.join('%s -> %s' % (' & '.join(c) or 'always', r) for c, r in got))
-        else:
-            run.violation('R-MARKER', inst, f.loc, '%s is not the lexicographic (index, top) order resp. derived from it: %s' % (name, got),
-                          site={'function': 'detail::stack_marker::' + name, 'role': 'total order consistent with allocation order'})
+            run.ok('R-MARKER', inst, f.loc, 'agrees with the lexicographic order in all 9 orderings of (index, top)')
     return n
 
 
